@@ -71,6 +71,7 @@ structure State (R : Type) where
   markers : List (String × Nat) := []          -- (node, count) of the running deployment
   wal : List (String × String × Nat) := []     -- pending (event, node, workload id or 0)
   next : Nat := 0                              -- next fresh container / workload id
+  pnodes : List String := []                   -- nodes the resource plugin holds a record of
 
 variable {R : Type} [ResAlg R]
 
@@ -104,6 +105,21 @@ def rmWl (id : Nat) (s : State R) : State R := { s with wls := s.wls.filter (fun
 
 def setWlRes (id : Nat) (r : R) (s : State R) : State R :=
   { s with wls := s.wls.map (fun w => if w.id = id then { w with res := r } else w) }
+
+/-- plugin `AddNode`: new record with capacity `c`, nothing used -/
+def pAddNode (n : String) (c : R) (s : State R) : State R :=
+  { s with pnodes := n :: s.pnodes,
+           cap := fun m => if m = n then c else s.cap m,
+           usage := fun m => if m = n then ResAlg.zero else s.usage m }
+
+/-- plugin `RemoveNode`: the record is deleted (an absent record reads as zero) -/
+def pRmNode (n : String) (s : State R) : State R :=
+  { s with pnodes := s.pnodes.filter (fun m => m != n),
+           cap := fun m => if m = n then ResAlg.zero else s.cap m,
+           usage := fun m => if m = n then ResAlg.zero else s.usage m }
+
+def sAddNode (n : String) (s : State R) : State R := { s with nodes := s.nodes ++ [n] }
+def sRmNode (n : String) (s : State R) : State R := { s with nodes := s.nodes.filter (fun m => m != n) }
 
 def findWl (s : State R) (id : Nat) : Option (Wl R) := s.wls.find? (fun w => w.id == id)
 
